@@ -17,6 +17,16 @@ Print Assumptions C18_evenly_each_source_once.
 Theorem C18_evenly_round_uses_each_destination_at_most_once : forall src p, NoDup p -> NoDup (map snd (zip src p)).
 Proof. exact evenly_round_distinct. Qed.
 Print Assumptions C18_evenly_round_uses_each_destination_at_most_once.
+(* the totals: with every round's list a duplicate-free arrangement of all destinations D (what random.shuffle returns),
+   any two destinations receive numbers of connections that differ by at most one *)
+Theorem C18_evenly_totals_differ_by_at_most_one : forall fuel perms src dsize r (D : list nat),
+  (forall p, In p perms -> length p = dsize /\ NoDup p /\ forall d, In d D -> In d p) ->
+  connect_evenly fuel perms src dsize = Some r ->
+  forall d d', In d D -> In d' D -> count d r <= S (count d' r).
+Proof. exact evenly_totals. Qed.
+Print Assumptions C18_evenly_totals_differ_by_at_most_one.
+Example C18_evenly_nonvacuous : connect_evenly 5 [[2; 0; 1]; [1; 2; 0]] [10; 11; 12; 13] 3 = Some [(10, 2); (11, 0); (12, 1); (13, 1)].
+Proof. vm_compute. reflexivity. Qed.
 Theorem C18_randomly_each_source_once : forall choices src dest maxc r,
   connect_randomly_uneven choices src dest maxc = ROk r -> map fst r = src.
 Proof. exact randomly_each_source_once. Qed.
